@@ -110,7 +110,8 @@ def check(R, F):
         ('opt-or-tsig-outside-additional', r'^true-when\{PeekRr::rr_type\(.*\)\.0 in \[41, 250\]\} not in \[0\]$', None, 1, HMWC),
         ('second-opt', r'^var:bool not in \[0\]$', OPT_EQ, 1, HMWC),
         ('opt-unparseable', r'^discr\(PeekRr::parse\(.*\)\) (not in \[0\]|in \[1\])$', OPT_EQ, 1, HMWC),
-        ('tsig-not-last', r'^Ne\(range::next\(.*\)@Some\.0,Sub\(cast\(Reader::arcount\(arg2\.received\)\),1_usize\)\) not in \[0\]$', TSIG_EQ, 1, HMWC),
+        # index != arcount - 1, or index + 1 != arcount
+        ('tsig-not-last', r'^Ne\((range::next\(.*\)@Some\.0,Sub\(cast\(Reader::arcount\(arg2\.received\)\),1_usize\)|Add\(range::next\(.*\)@Some\.0,1_usize\),cast\(Reader::arcount\(arg2\.received\)\))\) not in \[0\]$', TSIG_EQ, 1, HMWC),
         ('tsig-unparseable', r'^discr\(PeekRr::parse\(.*\)\) (not in \[0\]|in \[1\])$', TSIG_EQ, 1, HMWC),
         ('tsig-class-or-ttl', r"^discr\(ReadTsigRr(<'a>)?::try_from\(.*\)@Err\.0\) in \[%d\]$" % v0, TSIG_EQ, 1, HMWC),
         ('trailing-octets', r'^Reader::at_eom\(arg2\.received\) in \[0\]$', None, 1, HMWC),
